@@ -286,14 +286,45 @@ func loopPrefix(condLoops, siteLoops string) bool {
 	return siteLoops == condLoops || strings.HasPrefix(siteLoops, condLoops+"/")
 }
 
+// scopeBefore returns the indexes of the events before idx that are still in scope: everything
+// except what happened inside a loop that was closed (LoopExit seen) before idx. Events of a loop
+// that was left by returning from the function that contains it stay in scope: they are facts
+// about the iteration that returned.
+func scopeBefore(p *Path, idx int) []int {
+	type open struct {
+		node interface{}
+		n    int
+	}
+	var stack []open
+	var out []int
+	for i := 0; i < idx && i < len(p.Events); i++ {
+		e := &p.Events[i]
+		switch e.Kind {
+		case EvLoopEnter:
+			out = append(out, i)
+			stack = append(stack, open{e.Node, len(out)})
+			continue
+		case EvLoopExit:
+			for len(stack) > 0 {
+				top := stack[len(stack)-1]
+				stack = stack[:len(stack)-1]
+				if top.node == interface{}(e.Node) {
+					out = out[:top.n]
+					break
+				}
+			}
+		}
+		out = append(out, i)
+	}
+	return out
+}
+
 // CondsBefore returns the literals assumed on the path before event idx, leaving out those
 // assumed inside loops that were closed before the event.
 func CondsBefore(p *Path, idx int) []Lit {
-	site := &p.Events[idx]
 	var out []Lit
-	for i := 0; i < idx; i++ {
-		e := &p.Events[i]
-		if e.Kind == EvCond && loopPrefix(e.Loops, site.Loops) {
+	for _, i := range scopeBefore(p, idx) {
+		if e := &p.Events[i]; e.Kind == EvCond {
 			out = append(out, e.Lit)
 		}
 	}
@@ -302,13 +333,9 @@ func CondsBefore(p *Path, idx int) []Lit {
 
 // EventsBefore returns the events before idx that are still in scope (not inside closed loops).
 func EventsBefore(p *Path, idx int) []*Event {
-	site := &p.Events[idx]
 	var out []*Event
-	for i := 0; i < idx; i++ {
-		e := &p.Events[i]
-		if loopPrefix(e.Loops, site.Loops) {
-			out = append(out, e)
-		}
+	for _, i := range scopeBefore(p, idx) {
+		out = append(out, &p.Events[i])
 	}
 	return out
 }
